@@ -14,13 +14,14 @@ from .sym import concat
 
 
 class Ctx:
-    def __init__(self, decide, cmd_candidates, invoke_log=None, dev=()):
+    def __init__(self, decide, cmd_candidates, invoke_log=None, dev=(), choice=0):
         self.decide = decide
         self.cmd_candidates = cmd_candidates      # command text -> list of candidates (first field of each line)
         self.log = invoke_log
         # known deviations of the implementation, modelled so that a violation can be attributed
         # to a listed finding (known_findings.json) or recognised as a different one
         self.dev = set(dev)
+        self.choice = choice
         self.events = set()     # vacuity witnesses: which kinds of steps this evaluation took
         self.match_allowed = set()   # commands the grammar expects at some point the walk visits (C17)
         self.complete_calls = []     # (command text, arg1, arg2) the completion phase must make (C17)
@@ -160,11 +161,24 @@ def step(ctx, resolver, R, states, word):
             nxt.add(lit_hit)
             ctx.events.add('literal-step')
             continue
+        sub_hits = []
         for key in sorted(row, key=repr):
             if key[0] == 'sub':
                 if ctx.decide(sub_matches(ctx, resolver.sub_autos[key[1]], word)):
-                    nxt.add(row[key])
+                    sub_hits.append(row[key])
                     ctx.events.add('within-word-step')
+        if sub_hits and ctx.dev & set(WALK_DEVS):
+            # the emitted loop tries the within-word items one after the other and takes the first whose walk
+            # succeeds, then looks no further (not at commands or a placeholder either); with the walk deviations
+            # switched on several items can accept the same word (every item accepts the empty word), and which
+            # one comes first is the script's business: `choice` enumerates the possibilities for attribution
+            uniq = sorted(set(sub_hits))
+            nxt.add(uniq[ctx.choice % len(uniq)])
+            continue
+        nxt.update(sub_hits)
+        for key in sorted(row, key=repr):
+            if key[0] == 'sub':
+                continue
             elif key[0] == 'cmd':
                 cands = ctx.cmd_candidates.get(key[1])
                 if cands is None:
